@@ -75,9 +75,9 @@ func oracleC08() *Result {
 	add := func(base, variant []byte, v string, tag string) {
 		tasks = append(tasks, Task{Oracle: "C08", Cfg: v, Src: append(append(append([]byte(nil), base...), 0), variant...), Tag: tag})
 	}
-	nvar := 3
+	nvar := 4
 	if opts.Tier == "thorough" {
-		nvar = 9
+		nvar = 10
 	}
 	for _, fam := range []int{7, 5} {
 		v := "7.4"
@@ -95,9 +95,9 @@ func oracleC08() *Result {
 			}
 		}
 		for _, s := range ss {
-			ks := []int{8, 3, rng.Intn(8)}
+			ks := []int{8, 3, 9, rng.Intn(8)}
 			if opts.Tier == "thorough" {
-				ks = []int{0, 1, 2, 3, 4, 5, 6, 7, 8}
+				ks = []int{0, 1, 2, 3, 4, 5, 6, 7, 8, 9}
 			}
 			for _, k := range ks[:nvar] {
 				for _, tv := range withTriviaKinds(rng, s.Src, fam, k) {
@@ -136,9 +136,16 @@ func oracleC08() *Result {
 		if fam == 5 {
 			v = "5.6"
 		}
-		for k := 0; k < 2; k++ {
+		for _, k := range []int{0, 1, 9} {
 			for _, tv := range withTriviaKinds(rng, s.Src, fam, k) {
 				add(s.Src, tv, v, "corpus")
+			}
+		}
+	}
+	for _, src := range regressionInputs("C08") {
+		for _, k := range []int{9, 4, 3, 1} {
+			for _, tv := range withTriviaKinds(rng, src, 7, k) {
+				add(src, tv, "7.4", "regression")
 			}
 		}
 	}
